@@ -8,8 +8,8 @@ never coincides with a deadline or a wake-up):
                                                    2/3 the same, created GAP earlier
     ('try', [kinds], body, handler)                kinds subset of T (TaskTimeout), O, U,
                                                    C (plain CancelledError), X (TimeoutCancellationError)
-    ('group', ((dur, react), ...), body)           TaskGroup(wait=all) whose members sleep `dur`
-                                                   and need `react` to die when cancelled
+    ('group', ((dur, react), ...), body[, 'any'])  TaskGroup(wait=all|any) whose members sleep
+                                                   `dur` and need `react` to die when cancelled
 
 Everything the ORACLES (harness/c11.py, c12.py) judge is a public observable: exception classes
 leaving a block / the task, the public `.expired` flag, values returned, virtual times, and the
@@ -47,7 +47,8 @@ def ser(p, plain=False):
         return f'try {len(p[1])} {" ".join(p[1])} {ser(p[2], plain)} {ser(p[3], plain)}'
     if t == 'group':
         ms = ' '.join(f'{d} {r}' for d, r in p[1])
-        return f'group {len(p[1])} {ms} {ser(p[2], plain)}'
+        kw = 'groupany' if len(p) > 3 and p[3] == 'any' else 'group'
+        return f'{kw} {len(p[1])} {ms} {ser(p[2], plain)}'
     if t == 'groupx':
         return 'groupx'        # outside the model's language: judged by the oracle only
     raise ValueError(p)
@@ -81,7 +82,8 @@ def show(p):
         return f'try{{ {show(p[2])} }} except {"|".join(p[1])} {{ {show(p[3])} }}'
     if t == 'group':
         ms = ', '.join(f'member(sleep {d}, dies {r} after cancel)' for d, r in p[1])
-        return f'TaskGroup[{ms}]{{ {show(p[2])} }}'
+        pol = '(wait=any)' if len(p) > 3 and p[3] == 'any' else ''
+        return f'TaskGroup{pol}[{ms}]{{ {show(p[2])} }}'
     if t == 'groupx':
         ms = ', '.join(
             ('daemon ' if m[2] else '') + 'member(' + ('handled timeout; ' if m[3] else '') +
@@ -241,6 +243,8 @@ def gen_group(r, d, top=True, _ctr=None):
             # a member cancelled before its very first step dies at once whatever its reaction
             # time (it never entered its own try block): let the members get going first
             body = ('seq', ('sleep', GU), body)
+        if r.random() < 0.35:
+            return ('group', tuple(ms), body, 'any')
         return ('group', tuple(ms), body)
     return ('raise', r.choice(['O', 'T']))
 
@@ -450,7 +454,7 @@ class Impl:
         c = self.curio
         loop = asyncio.get_event_loop()
         if p[0] == 'group':
-            policy, mode, body = 'all', 'cm', p[2]
+            policy, mode, body = (p[3] if len(p) > 3 else 'all'), 'cm', p[2]
             members = [(d, r, False, False, None) for d, r in p[1]]
         else:
             _, policy, mode, members, body = p
